@@ -573,6 +573,9 @@ func engineDepth(rep *Report) {
 				continue
 			}
 			for _, k := range []int{12, 48} {
+				if depths[0] != 100 {
+					break // once per run (first depth pass)
+				}
 				var rest []byte
 				for j := 0; j < k; j++ {
 					ent := appendVarint(appendVarint(nil, 2<<3|2), uint64(len(rest)))
